@@ -2,6 +2,7 @@ package snowflake_proxy
 
 import (
 	"fmt"
+	"sync"
 	"time"
 )
 
@@ -31,7 +32,10 @@ func (b bytesNullLogger) GetStat() (in int, out int) { return -1, -1 }
 // bytesSyncLogger uses channels to safely log from multiple sources with output
 // occuring at reasonable intervals.
 type bytesSyncLogger struct {
-	outboundChan, inboundChan              chan int
+	outboundChan, inboundChan chan int
+	// lock protects the totals, which the log goroutine updates while
+	// other goroutines read them (ThroughputSummary, GetStat).
+	lock                                   sync.Mutex
 	outbound, inbound, outEvents, inEvents int
 	start                                  time.Time
 }
@@ -42,8 +46,8 @@ func newBytesSyncLogger() *bytesSyncLogger {
 		outboundChan: make(chan int, 5),
 		inboundChan:  make(chan int, 5),
 	}
-	go b.log()
 	b.start = time.Now()
+	go b.log()
 	return b
 }
 
@@ -51,11 +55,15 @@ func (b *bytesSyncLogger) log() {
 	for {
 		select {
 		case amount := <-b.outboundChan:
+			b.lock.Lock()
 			b.outbound += amount
 			b.outEvents++
+			b.lock.Unlock()
 		case amount := <-b.inboundChan:
+			b.lock.Lock()
 			b.inbound += amount
 			b.inEvents++
+			b.lock.Unlock()
 		}
 	}
 }
@@ -72,6 +80,8 @@ func (b *bytesSyncLogger) AddInbound(amount int) {
 
 // ThroughputSummary view a formatted summary of the throughput totals
 func (b *bytesSyncLogger) ThroughputSummary() string {
+	b.lock.Lock()
+	defer b.lock.Unlock()
 	inbound := b.inbound
 	outbound := b.outbound
 
@@ -82,7 +92,11 @@ func (b *bytesSyncLogger) ThroughputSummary() string {
 	return fmt.Sprintf("Traffic throughput (up|down): %d %s|%d %s -- (%d OnMessages, %d Sends, over %d seconds)", inbound, inUnit, outbound, outUnit, b.outEvents, b.inEvents, int(t.Sub(b.start).Seconds()))
 }
 
-func (b *bytesSyncLogger) GetStat() (in int, out int) { return b.inbound, b.outbound }
+func (b *bytesSyncLogger) GetStat() (in int, out int) {
+	b.lock.Lock()
+	defer b.lock.Unlock()
+	return b.inbound, b.outbound
+}
 
 func formatTraffic(amount int) (value int, unit string) {
 	value = amount
